@@ -66,6 +66,64 @@ theorem validator_detects_sequence_number (c : RepCtx) (e : SegExp) (o : SegObs)
   · exact List.ne_nil_of_mem (hmem hr)
   · exact validateSegment_not_reaches hr
 
+/-- the expectation is an `Option`: **`some 0` is an expectation like any other** (the first
+media segment of every static presentation is expected at decode time 0; a template may start
+at number 0) and only `none` switches a comparison off (media_segment.py:159, 163 test
+`is not None`).  At `some 0` every positive decode time beyond the tolerance and every non-zero
+sequence number is reported … -/
+theorem validator_detects_at_zero_expectation (c : RepCtx) (e : SegExp) (o : SegObs) (hr : Reaches c o) :
+    (e.expDecode = some 0 → e.tol < o.tfdt → SegErr.decodeTime ∈ validateSegment c e o) ∧
+    (e.expSeq = some 0 → o.seq ≠ 0 → SegErr.seqNum ∈ validateSegment c e o) := by
+  refine ⟨fun h0 hb => ?_, fun h0 hb => ?_⟩
+  · exact (validator_detects_decode_time c e o 0 h0 (Or.inr (by omega))).2 hr
+  · exact (validator_detects_sequence_number c e o 0 h0 (by omega)).2 hr
+
+/-- … and the three timing comparisons are switched off by `none` **only**: each error is
+present iff its expectation is `some v` with `v` off by more than the tolerance – for every
+`v`, zero, positive or negative -/
+theorem timing_errors_iff (c : RepCtx) (e : SegExp) (o : SegObs) :
+    (SegErr.seqNum ∈ seqErrs e o ↔ ∃ n, e.expSeq = some n ∧ n ≠ (o.seq : Int)) ∧
+    (SegErr.decodeTime ∈ decodeErrs e o ↔
+      ∃ t, e.expDecode = some t ∧ ((e.tol : Int) < t - o.tfdt ∨ (e.tol : Int) < (o.tfdt : Int) - t)) ∧
+    (SegErr.duration ∈ durErrs c e o ↔
+      ∃ d : Nat, e.expDur = some d ∧ ((c.dashTs : Int) < (d : Int) - (obsDuration c o : Int) ∨
+        (c.dashTs : Int) < (obsDuration c o : Int) - (d : Int))) := by
+  refine ⟨?_, ?_, ?_⟩
+  · unfold seqErrs
+    cases h : e.expSeq with
+    | none => simp
+    | some n => by_cases hn : n = (o.seq : Int) <;> simp [hn]
+  · unfold decodeErrs
+    cases h : e.expDecode with
+    | none => simp
+    | some t =>
+      cases ha : almostEqual t o.tfdt e.tol with
+      | true =>
+        have hb := (almostEqual_iff t o.tfdt e.tol).mp ha
+        constructor
+        · intro hm; simp [ha] at hm
+        · rintro ⟨t', ht', hbad⟩
+          cases ht'
+          omega
+      | false =>
+        have hb := (almostEqual_false_iff t o.tfdt e.tol).mp ha
+        exact ⟨fun _ => ⟨t, rfl, hb⟩, fun _ => by simp [ha]⟩
+  · unfold durErrs
+    cases h : e.expDur with
+    | none => simp
+    | some d =>
+      cases ha : almostEqual (d : Int) (obsDuration c o) c.dashTs with
+      | true =>
+        have hb := (almostEqual_iff (d : Int) (obsDuration c o) c.dashTs).mp ha
+        constructor
+        · intro hm; simp [ha] at hm
+        · rintro ⟨d', hd', hbad⟩
+          cases hd'
+          omega
+      | false =>
+        have hb := (almostEqual_false_iff (d : Int) (obsDuration c o) c.dashTs).mp ha
+        exact ⟨fun _ => ⟨d, rfl, hb⟩, fun _ => by simp [ha]⟩
+
 /-- `parse_data` gets as far as the trun/mdat comparison -/
 def ParseReaches (c : RepCtx) (o : SegObs) : Prop :=
   o.status = wantStatus c ∧ (c.infoEncrypted = true → c.ivKnown = true) ∧
@@ -797,6 +855,20 @@ example : validateSegment exCtx { (timeExp 10 (5760, 960)) with expSeq := some 7
     = [SegErr.seqNum] := by decide
 example : validateSegment exCtx (timeExp 10 (5760, 960)) { (exObs 7 5760) with dataOffset := 124 }
     = [SegErr.trunFirst, SegErr.trunLast] := by decide
+
+/-- **expectation `some 0`** (first segment of a static `$Time$` presentation, `…/time/0.m4v`):
+decode time 480 instead of 0 is reported, decode time 0 is accepted, `none` compares nothing;
+likewise an expected sequence number 0 -/
+example : validateSegment exCtx (timeExp 10 (0, 960)) (exObs 1 480) = [SegErr.decodeTime] := by decide
+example : validateSegment exCtx (timeExp 10 (0, 960)) (exObs 1 0) = [] := by decide
+example : validateSegment exCtx { (timeExp 10 (0, 960)) with expDecode := none } (exObs 1 480) = [] := by decide
+example : validateSegment exCtx { (timeExp 10 (0, 960)) with expSeq := some 0 } (exObs 1 0)
+    = [SegErr.seqNum] := by decide
+example : validateSegment exCtx { (timeExp 10 (0, 960)) with expSeq := some 0 } (exObs 0 0) = [] := by decide
+/-- the first entry of a static timeline in a whole pass: position 0, expected at 0, served at 480 -/
+example : located (repPass exCtx none (fetchAll
+    ((sliceG [960, 960, 960, 960] 3840 0 2).map (timeExp 10)) [exObs 1 480, exObs 2 960]))
+    = [(0, SegErr.decodeTime)] := by decide
 
 /-- an encrypted fragment whose saio offset is off by one -/
 example : validateSegment { exCtx with optEncrypted := true, infoEncrypted := true, ivKnown := true }
